@@ -13,7 +13,7 @@ RULE = ("(a) every shipped model (exhaustive) x generated argument points: the m
         "differences of the *declared* equation strings evaluated by the independent Python evaluator; completeness "
         "(every non-zero finite-difference entry has a pattern slot) and the reserved diag_eps constants. "
         "(b) assembled systems (stock dynamic cases and generated networks) at several operating points "
-        "(after power flow, after dynamic initialisation, inside/after a disturbed run, after outages; ipadd on/off): "
+        "(after power flow, after dynamic initialisation, inside/after a disturbed run, after a snapshot save/load followed by further simulation, after outages; ipadd on/off): "
         "finite differences of the routine's own residual map against dae.fx/fy/gx/gy, pattern constancy between "
         "updates, islanded-bus patch. Non-trivial: (a) a (model, equation, variable) entry whose derivative is "
         "non-constant over the sampled points; (b) a (system, point) pair with a limiter active, a device offline or "
@@ -264,7 +264,7 @@ def assembled_case(ctx, case):
                 ctx.count('assembled:pflow_failed')
                 return
             models, routine = ss.PFlow.models, ss.PFlow
-            if point in ('tds_init', 'tds_run'):
+            if point in ('tds_init', 'tds_run', 'tds_restored'):
                 ss.TDS.init()
                 models, routine = ss.exist.pflow_tds, ss.TDS
                 if point == 'tds_run':
@@ -272,9 +272,29 @@ def assembled_case(ctx, case):
                     if not ok:
                         ctx.count('assembled:tds_failed')
                         return
+                if point == 'tds_restored':
+                    # the system is saved as a snapshot half-way, loaded again, and the restored object simulated on:
+                    # its matrices must follow the moving operating point like those of a system that was never stored
+                    from andes.utils.snapshot import load_ss, save_ss
+                    from .. import sandbox
+                    tf = float(ss.TDS.config.tf)
+                    ss.TDS.config.tf = tf / 2
+                    if not ss.TDS.run():
+                        ctx.count('assembled:tds_failed')
+                        return
+                    pkl = os.path.join(sandbox.scratch_dir('c03'), 'snap-%d.pkl' % os.getpid())
+                    save_ss(pkl, ss)
+                    ss = load_ss(pkl)
+                    os.remove(pkl)
+                    ss.TDS.config.tf = tf
+                    if not ss.TDS.run():
+                        ctx.count('assembled:tds_failed')
+                        return
+                    models, routine = ss.exist.pflow_tds, ss.TDS
     except Exception as e:
         ctx.count('assembled:routine_raised:' + type(e).__name__)
         return
+    dae = ss.dae
     n, m = dae.n, dae.m
     if n + m > case.get('max_size', 700):
         ctx.count('assembled:too_large')
@@ -414,7 +434,7 @@ def assembled_case(ctx, case):
                 ctx.fail('islanded_bus_diagonal', dict(case=case, addr=a, value=float(row[a])), sig=dict())
     limiter_active = len(pegged) > 0
     offline = any(np.any(np.asarray(mdl.u.v) == 0) for mdl in models.values() if mdl.n > 0 and hasattr(mdl, 'u'))
-    moved = point == 'tds_run'
+    moved = point in ('tds_run', 'tds_restored')
     if limiter_active or offline or moved or case.get('outage') is not None:
         ctx.nontrivial(dict(path=case['path'], point=point, outage=case.get('outage'), ipadd=case['ipadd']),
                        sample=dict(case=case, n=n, m=m, entries_checked=active, pegged=len(pegged)))
@@ -423,7 +443,7 @@ def assembled_case(ctx, case):
 @st.composite
 def assembled_cases(draw, paths):
     return dict(path=draw(st.sampled_from(paths)),
-                point=draw(st.sampled_from(['pflow_init', 'pflow_sol', 'tds_init', 'tds_run', 'tds_run'])),
+                point=draw(st.sampled_from(['pflow_init', 'pflow_sol', 'tds_init', 'tds_run', 'tds_run', 'tds_restored'])),
                 ipadd=draw(st.sampled_from([1, 1, 0])),
                 tf=draw(st.sampled_from([0.1, 0.5, 1.1, 2.05])),
                 outage=draw(st.one_of(st.none(), st.none(), st.integers(0, 200))))
@@ -437,6 +457,11 @@ def camp_assembled(ctx):
     def body(case):
         ctx.evaluated()
         assembled_case(ctx, case)
+    if ctx.shard < 2 and 'kundur/kundur_full.xlsx' in paths:
+        case = dict(path='kundur/kundur_full.xlsx', point='tds_restored', ipadd=1 - ctx.shard, tf=2.05, outage=None)
+        ctx.current_case = case
+        ctx.count('assembled:anchor_restored_snapshot')
+        body(case)
     drive(ctx, assembled_cases(paths), body, 4 if quick else 40, name='assembled', shrink=False,
           budget_s=150 if quick else 1500)
 
